@@ -31,7 +31,7 @@ FILLS = [("zero", 0), ("ff", 0), ("bound", 1), ("bound", 2), ("hash", 1), ("hash
          ("sp32a", 1), ("sp32b", 1)]
 HISTORIES = ["plain", "battery_off_on", "battery_on_off", "single_first", "before_info", "settings_first",
              "refused_block_first"]
-REPS = {"quick": 1, "thorough": 12}
+REPS = {"quick": 1, "thorough": 48}
 _SPACE = {}
 
 
